@@ -1,8 +1,7 @@
 /-
   C08 (the clause that was missing in Props/C08.lean): the levels stored by `ParagraphBidiInfo::new` and by
   `BidiInfo::new` are the same at all code units of a character — for every well-formed text and every
-  data source that gives class FSI only to characters as long as U+2068 (`C02.FSIWidth`; true of the
-  built-in tables for every text: `C07.hardcoded_FSIWidth`).
+  data source (no FSI-width proviso is needed any more, since the repair of finding D10).
 
   * `C08_uniform_levels_para`   — one paragraph (`compute_bidi_info_for_para`), no hypothesis on the W/N stages
                                    (compare `C08.C08_uniform_levels_partial`, which took it as `hseq`)
@@ -23,25 +22,17 @@ open UBidi UBidi.BidiClass
 theorem uniformOn_iff {α} (t : Text) (xs : List α) : C08.UniformOn t xs ↔ Expand.UniformOn t xs := Iff.rfl
 
 /-- the original classes are uniform within characters (`C02_classes_uniform`, in the `[i]?` form) -/
-theorem classes_uniform (ds : DataSource) (t : Text) (hwf : t.WF) (hfsi : C02.FSIWidth ds t) (d : Option Nat)
+theorem classes_uniform (ds : DataSource) (t : Text) (hwf : t.WF) (d : Option Nat)
     (split : Bool) : Expand.UniformOn t (computeInitialInfo ds t d split).classes := by
   intro s hs j hj
   have hb := C08.Base.segsFrom_bounds t.segs 0 t.len hwf.tiles s hs
   have hl := C02.C02_classes_length ds t d hwf split
-  have h := C02.C02_classes_uniform ds t d hwf hfsi split s hs j hj
+  have h := C02.C02_classes_uniform ds t d hwf split s hs j hj
   have h1 : s.start + j < (computeInitialInfo ds t d split).classes.length := by omega
   have h2 : s.start < (computeInitialInfo ds t d split).classes.length := by omega
   simp only [List.getD_eq_getElem?_getD, List.getElem?_eq_getElem h1, List.getElem?_eq_getElem h2,
     Option.getD_some] at h
   rw [List.getElem?_eq_getElem h1, List.getElem?_eq_getElem h2, h]
-
-/-- the FSI-width proviso passes to sub-ranges -/
-theorem subrange_FSIWidth (ds : DataSource) (t : Text) (a b : Nat) (h : C02.FSIWidth ds t) :
-    C02.FSIWidth ds (t.subrange a b) := by
-  intro s hs hc
-  simp only [Text.subrange, List.mem_map, List.mem_filter] at hs
-  obtain ⟨s0, ⟨hs0, _⟩, rfl⟩ := hs
-  exact h s0 hs0 hc
 
 /-- one paragraph: the stored levels are uniform within every character (C08's
     `C08_uniform_levels_partial` without its hypothesis `hseq` on the W/N stages; `hlen` — one original
@@ -52,10 +43,10 @@ theorem C08_uniform_levels_para (ds : DataSource) (pl : Nat) (pure hasIso : Bool
   Expand.paraLevels_uniform ds pl pure hasIso t hwf ocs hlen ho
 
 /-- `ParagraphBidiInfo`: all code units of a character carry the same level -/
-theorem C08_uniform_levels_single (ds : DataSource) (t : Text) (hwf : t.WF) (hfsi : C02.FSIWidth ds t)
+theorem C08_uniform_levels_single (ds : DataSource) (t : Text) (hwf : t.WF)
     (d : Option Nat) : C08.UniformOn t (paragraphBidiInfo ds t d).levels :=
   Expand.paraLevels_uniform ds _ _ _ t hwf _ (C02.C02_classes_length ds t d hwf false)
-    (classes_uniform ds t hwf hfsi d false)
+    (classes_uniform ds t hwf d false)
 
 /-- every position of `[pos, e)` lies in one of the paragraphs that tile it -/
 theorem parasFrom_cover {G : ParaInfo → Flags → Prop} : ∀ (P : List ParaInfo) (F : List Flags) (pos e : Nat),
@@ -79,7 +70,7 @@ theorem slice_getElem? {α} (xs : List α) (a b i : Nat) (h1 : a ≤ i) (h2 : i 
   rw [if_pos (by omega), show a + (i - a) = i by omega]
 
 /-- `BidiInfo`: all code units of a character carry the same level -/
-theorem C08_uniform_levels_multi (ds : DataSource) (t : Text) (hwf : t.WF) (hfsi : C02.FSIWidth ds t)
+theorem C08_uniform_levels_multi (ds : DataSource) (t : Text) (hwf : t.WF)
     (d : Option Nat) : C08.UniformOn t (bidiInfo ds t d).levels := by
   intro s hs j hj
   obtain ⟨hgood, _⟩ := Lemmas.C10.paras_good ds t hwf d
@@ -94,7 +85,7 @@ theorem C08_uniform_levels_multi (ds : DataSource) (t : Text) (hwf : t.WF) (hfsi
   have hsubcls : Expand.UniformOn (t.subrange p.start p.stop)
       (slice (computeInitialInfo ds t d true).classes p.start p.stop) := by
     rw [← hcls]
-    exact classes_uniform ds _ hw (subrange_FSIWidth ds t _ _ hfsi) d false
+    exact classes_uniform ds _ hw d false
   have hsublen : (slice (computeInitialInfo ds t d true).classes p.start p.stop).length
       = (t.subrange p.start p.stop).len := by
     rw [← hcls]
@@ -114,20 +105,20 @@ theorem C08_uniform_levels_multi (ds : DataSource) (t : Text) (hwf : t.WF) (hfsi
   exact this
 
 /-- C08's uniformity clause in one statement: classes and levels of both analysis types -/
-theorem C08_uniform (ds : DataSource) (t : Text) (hwf : t.WF) (hfsi : C02.FSIWidth ds t) (d : Option Nat) :
+theorem C08_uniform (ds : DataSource) (t : Text) (hwf : t.WF) (d : Option Nat) :
     C08.UniformOn t (paragraphBidiInfo ds t d).classes ∧ C08.UniformOn t (paragraphBidiInfo ds t d).levels ∧
     C08.UniformOn t (bidiInfo ds t d).classes ∧ C08.UniformOn t (bidiInfo ds t d).levels :=
-  ⟨classes_uniform ds t hwf hfsi d false, C08_uniform_levels_single ds t hwf hfsi d,
-   classes_uniform ds t hwf hfsi d true, C08_uniform_levels_multi ds t hwf hfsi d⟩
+  ⟨classes_uniform ds t hwf d false, C08_uniform_levels_single ds t hwf d,
+   classes_uniform ds t hwf d true, C08_uniform_levels_multi ds t hwf d⟩
 
 /-! ### non-vacuity -/
 
 /-- `C02.exText` ("FSI א PDI ⏎ a FSI RLI b PDI ב" as a `&str`: two paragraphs, multi-unit characters) meets
-    the hypotheses with the built-in tables -/
+    the hypothesis -/
 example : C08.UniformOn C02.exText (bidiInfo hardcoded C02.exText none).levels ∧
     C08.UniformOn C02.exText (paragraphBidiInfo hardcoded C02.exText none).levels :=
-  ⟨C08_uniform_levels_multi hardcoded C02.exText C02.exText_wf C02.exText_fsi none,
-   C08_uniform_levels_single hardcoded C02.exText C02.exText_wf C02.exText_fsi none⟩
+  ⟨C08_uniform_levels_multi hardcoded C02.exText C02.exText_wf none,
+   C08_uniform_levels_single hardcoded C02.exText C02.exText_wf none⟩
 
 /-- test (evaluation on that literal): the levels are not constant, and the text has characters of 1, 2
     and 3 code units -/
